@@ -104,6 +104,13 @@ fn unary(s: &mut Session, a: i32) {
     // 24-bit constructors saturate
     s.case("Int24::new", format!("i24.new {a}"), Int24::new(a).to_i32().to_string());
     s.case("Uint24::new", format!("u24.new {u}"), Uint24::new(u).to_u32().to_string());
+    // model-independent: construction saturates (clamp), and agrees with checked_new
+    s.oracle("int24-new-saturates", Int24::new(a).to_i32() == a.clamp(-0x80_0000, 0x7F_FFFF)
+        && Int24::checked_new(a).map(|v| v.to_i32()) == if (-0x80_0000..=0x7F_FFFF).contains(&a) { Some(a) } else { None },
+        || format!("Int24::new({a})"), || format!("{}", Int24::new(a).to_i32()));
+    s.oracle("uint24-new-saturates", Uint24::new(u).to_u32() == u.min(0xFF_FFFF)
+        && Uint24::checked_new(u).map(|v| v.to_u32()) == if u <= 0xFF_FFFF { Some(u) } else { None },
+        || format!("Uint24::new({u})"), || format!("{}", Uint24::new(u).to_u32()));
 }
 
 fn exhaustive16(s: &mut Session) {
